@@ -259,7 +259,7 @@ PROPS = {
                         "the fake resolver.Resolver stands for the resolver layer (DoH/DNS53 are covered by C03/C06/C07)"],
     },
     "C20": {
-        "proof_files": ["Proofs/RouterFacts.v"],
+        "proof_files": ["Proofs/RouterFacts.v", "Proofs/RouterOpenwrt.v"],
         "runs": [{"engine": "router", "args": [], "n_quick": 1600, "n_thorough": 80000, "netns": True, "mountns": True}],
         "trivial_tags": [r"^generic/"],
         "rule": "the real router.New() (firewalla: firewalla.New()) / Configure / Setup / Restore of all eight firmware packages run in a chroot "
